@@ -211,6 +211,18 @@ def r2(chk, prog, variant):
     for gname in f.module.globals:
         if gname.endswith("random_seed"):
             seedg = gname
+    if seedg is None:
+        # not under its reference name: the seed is the one writable integer global that the hash function reads
+        from .c06 import _global_of
+        cands = set()
+        for i in f.instrs():
+            if i.op == "load":
+                t = _global_of(i.ops[0])
+                gg = f.module.globals.get(t) if t else None
+                if gg is not None and not gg.constant and gg.init is not None and gg.init.kind == "int":
+                    cands.add(t)
+        if len(cands) == 1:
+            seedg = cands.pop()
     chk.require(seedg is not None, "seed global not found in linkhash.c")
     g = f.module.globals[seedg]
     chk.require(g.init is not None and g.init.kind == "int", "seed initialiser not an integer")
